@@ -225,7 +225,19 @@ func (r *Runner) reconcile(cur map[string][]byte, modes map[string]os.FileMode, 
 			newNames = append(newNames, name)
 		}
 	}
-	sort.Strings(newNames)
+	// creation order within one step: timestamped files by their timestamp, then the plain active name (a slow first
+	// write can open a file, rotate it at once and open the next one within a single call)
+	sort.Slice(newNames, func(i, j int) bool {
+		ti, oki := r.patternTS(newNames[i])
+		tj, okj := r.patternTS(newNames[j])
+		switch {
+		case oki && okj:
+			return ti < tj
+		case oki != okj:
+			return oki
+		}
+		return newNames[i] < newNames[j]
+	})
 	if r.Cfg.TSOnly && afterWrite {
 		if old := r.find(r.Cfg.FileName); old != nil && !old.moved {
 			for i, nn := range newNames {
